@@ -8,6 +8,9 @@ CLAIMED = {
  "C04": ("exploration", "Every push/pop call is charged the scheduling points of its own thread and must stay under a generous bound; a call still running when the run's point budget is exhausted is reported as stuck; panics inside a call are reported. Histories are biased to refill-after-steal.", "6 C04"),
  "C05": ("exploration", "Single-thread histories over one shared and 1-4 local queues with tied and extreme priorities; the shims log container-level inserts/removes, a FIFO mirror per container yields the resident set of the queue that supplied each popped item; the popped item must be the oldest of the smallest priority value resident there.", "6 C05"),
  "C06": ("exploration", "Same mirror: 61 consecutive pops on one local queue while the shared queue continuously holds work must include a shared item; a pop may report empty only if nothing is waiting anywhere.", "6 C06"),
+ "C07": ("exploration", "Generated coroutine bodies and driver actions (resumes incl. refused ones, clock advances, syscall wake-ups, direct transition calls, panicking listeners) on one thread; recording listeners: every reported (old,new) must be an edge of the documented graph, chained, followed by exactly one matching callback; refused operations change nothing; finished coroutines never change or run code.", "6 C07"),
+ "C08": ("exploration", "Typed coroutine<u64,u64,u64> with unique random payloads in both directions at 0-50 suspend points, return or panic (&'static str and String payloads) at the end, panicking listeners: k-th resume argument = k-th suspend result, k-th yield = k-th reported value, one Complete, Error carries the panic message, nothing unwinds into the caller.", "6 C08"),
+ "C09": ("exploration", "Same runs as C07: each body records what it asked for in its latest yield (plain / delay / until / cancel / a yield made in a syscall state) and the resume's reported wake-up time and cancellation must be exactly that, whatever other coroutines on the thread asked for before.", "6 C09"),
 }
 NOTE = "Trusted: the vsim engine and shims (sequentially consistent interleavings at shim operations only; no weak-memory effects, no data races inside one uninstrumented operation), crossbeam Injector/SkipMap treated as linearizable, the textual std->vstd rewrite of the generated copy. Sampling, not enumeration."
 props = [json.loads(l) for l in open(os.path.join(V, "properties.jsonl"))]
